@@ -211,7 +211,7 @@ CLAIMS = {
              "Tied to the code by two streams: random operation histories on the REAL ast package / Memoize / Any / Optional / SeqOf "
              "with every pool value re-rendered after every operation and compared with the machine, and parse-level probes that "
              "render every parser's result at return time and again at the end of the parse.",
-        note="TIED BY TRANSLATION at heap level (Props/C07P.lean): ast.SetReaderPos, NodeList.SetReaderPos and the SetReaderPos methods of the node types are translated from /repo on every run (node cells and slice headers on a heap) and the slice machine is proved to agree with them, in place, including the frame (c07_translated_setReaderPos, _op, _frame - the D5 witness history runs on the translated code); AppendNode / NodeList.Append, the sequence buffer and result handler are pinned by their slice-operation skeletons, Memoize / Any / Optional by structural facts and by the value-level tie C01P. "
+        note="TIED BY TRANSLATION at heap level (Props/C07P.lean): ast.SetReaderPos, NodeList.SetReaderPos and the SetReaderPos methods of the node types are translated from /repo on every run (node cells and slice headers on a heap) and the slice machine is proved to agree with them, in place, including the frame (c07_translated_setReaderPos, _op, _frame - the D5 witness history runs on the translated code); ast.AppendNode and (*NodeList).Append are translated at heap level too (append in place when len < cap, else a fresh array) and tied to the machine's appendNode / optionalAppend / nlAppend operations on every reachable state, frame included (c07_translated_append, _frame); the two facts the property is about are proved about the TRANSLATED code: a clipped header (len = cap) never writes into an existing array (c07p_clipped_append_fresh, for every store, argument and fuel) and an unclipped shared header is overwritten by a second append (c07p_unclipped_append_corrupts, the D1 witness); the sequence buffer and result handler are pinned by their slice-operation skeletons, Memoize / Any / Optional by structural facts and by the value-level tie C01P. "
              "Known finding D5 (RightTrim mutates shared nodes in place) is reported as KNOWN-FINDING, identified by its structural "
              "signature. The linear-use discipline of un-cached lists is enforced by the machine and is how the combinators use them.",
         technique="Lean 4 frame/invariant proof over operation histories on a slice heap (every growth policy) + two differential streams (operation histories on the real ast/combinator code; parse-level render-at-return probes)"),
